@@ -41,7 +41,7 @@ claim('C11',
       'Rc::get_mut; every peek()-guarded loop makes progress; Range::len is sign-symmetric as a symbolic linear form with clamped '
       'numerators and Range::empty compares in the direction of the step; infinite streams declare it and len maps that to inf; overriding len/peek/index methods read the cursor field '
       'next() advances on every result-producing path; Iterate yields the current element before stepping; Range::len(None end) decided by '
-      'evaluating the MIR on that abstract input; per stream type, peek has a length-versus-length exhaustion guard only if next has one.',
+      'evaluating the MIR on that abstract input; per stream type, peek has a length-versus-length exhaustion guard only if next has one. A reversed override of Range derives its first element through a division or length.',
       'per-impl decision table from MIR return origins + CFG progress queries + symbolic linear forms')
 claim('C10',
       'Decides structural clauses, not the clamp arithmetic: every positional payload access in the read/write/remove/slice functions '
@@ -131,5 +131,5 @@ claim('C13',
       'finite tables or shapes: the exhaustive kind-preservation table of the filter/sort/unique/reverse/take/drop/uncons/unsnoc helpers '
       '(input kind -> constructed kind), stable sorting and first-occurrence uniqueness, the initial element of the combinatorial streams, '
       'progress of the predicate loops over streams, non-short-circuiting row construction in ziplongest, adjacency in group-by-relation, a window-free exit of window, predicates not '
-      're-run after their first failure, f(accumulator, element) in fold/scan, and cartesian products always building fresh lists.',
+      're-run after their first failure, f(accumulator, element) in fold/scan, and cartesian products always building fresh lists. A reversed override of Range derives its first element through a division or length.',
       'finite kind tables from HIR match arms + guard-polarity query')
